@@ -94,8 +94,15 @@ PROPS = {
              ["SAN pushes (san::Move, San<S>): differential only until san_sound (C09) gives MakeLikeOk for them"],
              "Lean 4 theorems by induction over operation sequences; differential on generated chain scripts ties the model to the code",
              "§6 C13"),
-    "C14": P("exploration", "none yet", ["repeat_count_eq", "chain_outcome_eq"],
-             "differential vs Spec.chainOutcomes (relational) and Spec.passes; thresholds re-extracted", "§6 C14"),
+    "C14": P("proof", "over the C13 chain invariant (hs = every position of the game so far): calc_spec (the chain's calculation = the "
+             "position's own outcome when forced or a mandatory draw, else ≥5 / ≥3 occurrences of the current hash in hs give Repeat5 / "
+             "Repeat3, else the position's own outcome); occurrences_ge (every true repetition — same squares, side, rights, en-passant "
+             "mark — is counted, by C05); passes_table (forced pass every filter, mandatory strict+relaxed, claimable relaxed only); "
+             "auto_spec (stores the calculated outcome exactly when it passes the filter); pop_push_counts; calc_total (no panic)",
+             ["the position's own outcome (mate / stalemate / insufficient / 75 / 50) is C07: differential",
+              "occurrences are counted by Zobrist hash: an over-count needs a 64-bit collision (cannot be excluded by proof; C05 shows no under-count)"],
+             "Lean 4 theorems over the chain invariant; differential on generated chain scripts (repetition-heavy flavours) ties the model to the code",
+             "§6 C14"),
     "C15": P("proof", "rook/bishop lookups exact for all 64 squares × all 2^64 occupancies (kernel-decided over every submask of the "
              "extracted masks, lifted by walk-congruence and submask completeness); king/knight/pawn tables; alignment and "
              "strictly-between tables for all 4096 pairs", [],
